@@ -38,6 +38,12 @@ BARRIER_OPS = {"wait", "reset", "abort"}
 
 
 MUTANTS = [
+    ("halo on the wrong side", "AegeanTools/BANE.py",
+     "    data_row_min = max(0, ymin - box_size[0]//2)",
+     "    data_row_min = max(0, ymin + box_size[0]//2)", "C07-R11"),
+    ("no halo below the stripe", "AegeanTools/BANE.py",
+     "    data_row_max = min(shape[0], ymax + box_size[0]//2)",
+     "    data_row_max = min(shape[0], ymax)", "C07-R11"),
     ("background subtracted from the own rows only", "AegeanTools/BANE.py",
      "    data -= ibkg[data_row_min:data_row_max, :]",
      "    data[ymin - data_row_min:ymax - data_row_min, :] -= ibkg[ymin:ymax, :]",
@@ -999,9 +1005,15 @@ def r10_halo(ctx, prog, worker, rule="C07-R10"):
                  isinstance(st.target, ast.Subscript) and
                  norm(st.target.value) == blk)]
     if len(rows) != 1 or len(subs) != 1:
-        raise AnalysisError("%s: block rows %s / %d subtraction(s)" %
-                            (rule, rows, len(subs)))
+        # written another way (C06-R1 decides the subtraction itself)
+        ctx.unknown_site(rule, worker, "block rows %s / %d in-place "
+                         "subtraction(s) on the block" %
+                         (sorted(rows), len(subs)), node=worker.node)
+        if len(rows) == 1:
+            r11_halo_reach(ctx, worker, *sorted(rows)[0])
+        return
     lo, hi = rows.pop()
+    r11_halo_reach(ctx, worker, lo, hi)
     st = subs[0]
     whole = isinstance(st.target, ast.Name)
     if isinstance(st.target, ast.Subscript):
@@ -1026,6 +1038,55 @@ def r10_halo(ctx, prog, worker, rule="C07-R10"):
               "boundary is inflated by it -- the more stripes, the more "
               "boundaries" % (lo, hi, "all rows" if whole else
                               norm(st.target, 50), vr), node=st)
+
+
+def r11_halo_reach(ctx, worker, lo, hi, rule="C07-R11"):
+    """the block a stripe loads reaches half a box beyond its own rows"""
+    from .. import concrete
+    ctx.rule(rule, "the halo of a stripe: the bounds of the block a worker "
+             "loads are interpreted for stripes at the top, in the middle and "
+             "at the bottom of the image -- the block starts at or before "
+             "max(0, first own row - box/2), ends at or after min(height, "
+             "last own row + box/2) and stays inside the image; a shorter "
+             "halo truncates the boxes next to a stripe boundary, so the maps "
+             "depend on the stripe layout")
+    pre = []
+    for st in worker.node.body:
+        if any(".section" in norm(x, 200) for x in [st]):
+            break
+        pre.append(st)
+    H, W, bh, bw = 100, 80, 21, 31
+    bad = []
+    for ymin, ymax in ((0, 25), (25, 50), (75, 100), (0, 100), (40, 45)):
+        env = {"region": [ymin, ymax], "box_size": [bh, bw],
+               "shape": [H, W], "step_size": [4, 4]}
+        for st in pre:
+            if isinstance(st, (ast.Assign, ast.AugAssign)):
+                try:
+                    concrete.run([st], env)
+                except concrete.Unknown:
+                    pass
+        try:
+            a, b = concrete.ev(ast.parse(lo, mode="eval").body, env), \
+                concrete.ev(ast.parse(hi, mode="eval").body, env)
+        except (concrete.Unknown, SyntaxError) as e:
+            ctx.unknown_site(rule, worker, "block bounds %s:%s not "
+                             "interpreted (%s)" % (lo, hi, e),
+                             node=worker.node)
+            return
+        if not (isinstance(a, (int, float)) and isinstance(b, (int, float))):
+            ctx.unknown_site(rule, worker, "block bounds are not numbers",
+                             node=worker.node)
+            return
+        if a < 0 or b > H or a > max(0, ymin - bh // 2) or \
+                b < min(H, ymax + bh // 2) or a != int(a) or b != int(b):
+            bad.append((ymin, ymax, a, b))
+    ctx.check(rule, worker, "block rows %s:%s cover the stripe and half a "
+              "box on either side" % (lo, hi), not bad,
+              "for the stripe rows %s:%s of a %d-row image with a %d-row box "
+              "the worker loads rows %s:%s" %
+              ((bad[0][0], bad[0][1], H, bh, bad[0][2], bad[0][3])
+               if bad else (0,) * 6), node=worker.node)
 
 
 def r9_layout(ctx, prog, parent, rule="C07-R9"):
